@@ -312,14 +312,23 @@ void MockSupport::countCheck()
     UtestShell::getCurrent()->countCheck();
 }
 
-void MockSupport::checkExpectationsOfLastActualCall()
+static bool checkExpectationsAndTellWhetherTheCallFailedNow(MockCheckedActualCall* call)
 {
-    if(lastActualFunctionCall_)
-        lastActualFunctionCall_->checkExpectations();
+    bool hadFailedBefore = call->hasFailed();
+    call->checkExpectations();
+    return !hadFailedBefore && call->hasFailed();
+}
+
+bool MockSupport::checkExpectationsOfLastActualCall()
+{
+    if(lastActualFunctionCall_ && checkExpectationsAndTellWhetherTheCallFailedNow(lastActualFunctionCall_))
+        return true;
 
     for(MockNamedValueListNode *p = data_.begin();p;p = p->next())
         if(getMockSupport(p) && getMockSupport(p)->lastActualFunctionCall_)
-            getMockSupport(p)->lastActualFunctionCall_->checkExpectations();
+            if (checkExpectationsAndTellWhetherTheCallFailedNow(getMockSupport(p)->lastActualFunctionCall_))
+                return true;
+    return false;
 }
 
 bool MockSupport::hasCallsOutOfOrder()
@@ -338,7 +347,8 @@ bool MockSupport::hasCallsOutOfOrder()
 
 void MockSupport::checkExpectations()
 {
-    checkExpectationsOfLastActualCall();
+    if (checkExpectationsOfLastActualCall())
+        return;
 
     if (wasLastActualCallFulfilled() && expectedCallsLeft())
         failTestWithExpectedCallsNotFulfilled();
